@@ -166,6 +166,63 @@ enum Doc {
     Save(String, Compiled, String), // name, program, save text
 }
 
+
+/// every string in the document that is used as a content path: (json pointer, value)
+fn path_fields(v: &Value, ptr: &str, out: &mut Vec<(String, String)>) {
+    const KEYS: &[&str] = &["cPath", "previousContentObject", "originalChoicePath", "targetPath", "->", "^->", "*", "CNT?", "f()", "->t->", "originalThreadIndex"];
+    match v {
+        Value::Object(o) => {
+            for (k, x) in o.iter() {
+                let p2 = format!("{ptr}/{}", k.replace('~', "~0").replace('/', "~1"));
+                if let Value::String(s) = x
+                    && KEYS.contains(&k.as_str())
+                {
+                    out.push((p2.clone(), s.clone()));
+                }
+                path_fields(x, &p2, out);
+            }
+        }
+        Value::Array(a) => {
+            for (i, x) in a.iter().enumerate() {
+                path_fields(x, &format!("{ptr}/{i}"), out);
+            }
+        }
+        _ => {}
+    }
+}
+
+/// paths that exist in a story, leaves included (independent walk over the compiled JSON)
+fn story_paths(v: &Value, path: &str, out: &mut Vec<String>, cap: usize) {
+    if out.len() >= cap {
+        return;
+    }
+    if let Value::Array(a) = v {
+        if !path.is_empty() {
+            out.push(path.to_string());
+        }
+        let n = a.len();
+        for (i, x) in a.iter().enumerate() {
+            if i + 1 == n {
+                // named content
+                if let Value::Object(o) = x {
+                    for (k, y) in o.iter() {
+                        if y.is_array() {
+                            story_paths(y, &if path.is_empty() { k.clone() } else { format!("{path}.{k}") }, out, cap);
+                        }
+                    }
+                }
+                continue;
+            }
+            let p2 = if path.is_empty() { i.to_string() } else { format!("{path}.{i}") };
+            if x.is_array() {
+                story_paths(x, &p2, out, cap);
+            } else if out.len() < cap {
+                out.push(p2); // a leaf: text, command, divert, choice point ...
+            }
+        }
+    }
+}
+
 /// Feeds one text to the API under test. Returns "ok" / "err" or records a violation.
 fn feed(rep: &mut Report, doc: &Doc, text: &str, fault: &str, loader: &str, check_recovery: bool) -> &'static str {
     let repo = rep.cfg.repo_dir.clone();
@@ -432,17 +489,70 @@ pub fn run(cfg: &Cfg) -> i32 {
             rep.case(Some(fnv(&format!("{name}|{label}|{}", fnv(&t)))));
             *outcomes.entry(format!("{kind}/{label}/{o}")).or_insert(0) += 1;
         }
+        // path swaps: every field that holds a content path gets other paths that exist (containers AND leaves), the
+        // path of a sibling field, a child index appended, its parent - a well-formed document whose references are wrong
+        if let Ok(parsed) = serde_json::from_str::<Value>(&text) {
+            let mut fields = Vec::new();
+            path_fields(&parsed, "", &mut fields);
+            let story_json = match doc {
+                Doc::Story(_, t) => serde_json::from_str::<Value>(t).ok(),
+                Doc::Save(_, c, _) => serde_json::from_str::<Value>(&c.json).ok(),
+            };
+            let mut pool: Vec<String> = Vec::new();
+            if let Some(sj) = story_json.as_ref().and_then(|j| j.get("root")) {
+                story_paths(sj, "", &mut pool, 400);
+            }
+            let field_values: Vec<String> = fields.iter().map(|f| f.1.clone()).collect();
+            let nfields = fields.len();
+            for (fi, (ptr, val)) in fields.into_iter().enumerate() {
+                if nfields > cfg.pick(12usize, 60) && !rng.chance(cfg.pick(12u32, 60), nfields as u32) {
+                    continue;
+                }
+                let mut cands: Vec<String> = vec![format!("{val}.0"), format!("{val}.0.0"), val.rsplit_once('.').map(|x| x.0.to_string()).unwrap_or_default(), format!("{val}.^"), ".^.^.^.^.^.^".into(), "0".into()];
+                for _ in 0..cfg.pick(4, 10) {
+                    if !pool.is_empty() {
+                        cands.push(rng.pick(&pool).clone());
+                    }
+                    if !field_values.is_empty() {
+                        cands.push(rng.pick(&field_values).clone());
+                    }
+                }
+                for cand in cands {
+                    if cand == val {
+                        continue;
+                    }
+                    let mut m = parsed.clone();
+                    if let Some(slot) = m.pointer_mut(&ptr) {
+                        *slot = Value::String(cand.clone());
+                    } else {
+                        continue;
+                    }
+                    let t = m.to_string();
+                    let o = feed(&mut rep, doc, &t, "path-swap", loader, matches!(doc, Doc::Save(..)));
+                    rep.case(Some(fnv(&format!("{name}|path-swap|{fi}|{cand}"))));
+                    *outcomes.entry(format!("{kind}/path-swap/{o}")).or_insert(0) += 1;
+                }
+            }
+        }
         rep.journal_end(&format!("{name}#text"));
     }
     // nesting bombs: each in its own journal entry (a stack overflow kills the worker)
     if cfg.mine(docs.len() as u64 + 1) {
         if let Some(first_story) = docs.iter().find(|d| matches!(d, Doc::Story(..))) {
-            for (label, open, close, depth) in [("array-bomb", "[", "]", 200_000usize), ("object-bomb", "{\"a\":", "}", 100_000), ("root-array-bomb", "[", "]", 200_000), ("root-named-content-bomb", "{\"a\":[", "]}", 20_000)] {
+            for (label, open, close, depth) in [("array-bomb", "[", "]", 200_000usize), ("object-bomb", "{\"a\":", "}", 100_000), ("root-array-bomb", "[", "]", 200_000), ("root-named-content-bomb", "{\"a\":[", "]}", 20_000),
+                // objects directly inside objects, never passing through an array
+                ("root-object-bomb", "{\"a\":", "}", 100_000), ("root-first-item-object-bomb", "{\"a\":", "}", 50_000), ("root-named-object-bomb", "{\"a\":", "}", 50_000)] {
                 let case = format!("nesting#{label}");
                 rep.journal_start(&case);
                 let body = format!("{}{}{}", open.repeat(depth), if label == "object-bomb" { "1" } else { "" }, close.repeat(depth));
                 let t = if label == "root-array-bomb" {
                     format!("{{\"inkVersion\":21,\"root\":{body},\"listDefs\":{{}}}}")
+                } else if label == "root-object-bomb" {
+                    format!("{{\"inkVersion\":21,\"root\":{}1{},\"listDefs\":{{}}}}", open.repeat(depth), close.repeat(depth))
+                } else if label == "root-first-item-object-bomb" {
+                    format!("{{\"inkVersion\":21,\"root\":[{}1{},\"done\",null],\"listDefs\":{{}}}}", open.repeat(depth), close.repeat(depth))
+                } else if label == "root-named-object-bomb" {
+                    format!("{{\"inkVersion\":21,\"root\":[\"done\",{{\"k\":{}1{}}}],\"listDefs\":{{}}}}", open.repeat(depth), close.repeat(depth))
                 } else if label == "root-named-content-bomb" {
                     format!("{{\"inkVersion\":21,\"root\":[{}null{},null],\"listDefs\":{{}}}}", open.repeat(depth), close.repeat(depth))
                 } else {
@@ -455,11 +565,16 @@ pub fn run(cfg: &Cfg) -> i32 {
             }
         }
         if let Some(first_save) = docs.iter().find(|d| matches!(d, Doc::Save(..))) {
-            for (label, depth) in [("save-array-bomb", 200_000usize), ("save-evalstack-bomb", 3_000)] {
+            for (label, depth) in [("save-array-bomb", 200_000usize), ("save-evalstack-bomb", 3_000), ("save-variables-object-bomb", 50_000), ("save-evalstack-object-bomb", 50_000)] {
                 let case = format!("nesting#{label}");
                 rep.journal_start(&case);
                 let body = format!("{}{}", "[".repeat(depth), "]".repeat(depth));
-                let t = if label == "save-evalstack-bomb" {
+                let obj_body = format!("{}1{}", "{\"a\":".repeat(depth), "}".repeat(depth));
+                let t = if label == "save-variables-object-bomb" {
+                    if let Doc::Save(_, _, s) = first_save { s.replacen("\"variablesState\":{", &format!("\"variablesState\":{{\"bomb\":{obj_body},"), 1) } else { obj_body }
+                } else if label == "save-evalstack-object-bomb" {
+                    if let Doc::Save(_, _, s) = first_save { s.replacen("\"evalStack\":[", &format!("\"evalStack\":[{obj_body},"), 1) } else { obj_body }
+                } else if label == "save-evalstack-bomb" {
                     if let Doc::Save(_, _, s) = first_save { s.replacen("\"evalStack\":[", &format!("\"evalStack\":[{body},"), 1) } else { body }
                 } else {
                     body
